@@ -5,6 +5,8 @@ CONSTANTS
   PT0MC <- PT3
   PPagesMC <- PP4
   MaxReq = 2
+  MaxHost = 0
+  ReleaseSrcEarly = FALSE
   ReplySlot = "hold"
 PROPERTIES Progress
 CHECK_DEADLOCK FALSE
